@@ -192,6 +192,10 @@ def check_C17(ctx):
     runs = run_jobs(ctx, jobs, workers=len(jobs))
     judge(ctx, 'C17', runs, jobs, 'registry', rerun_plain(ctx))
     ctx.samples = [runs[0], runs[3]]
+    # (1b) a commit that FAILS (log rotation parked past the retry budget) must release the lock as well
+    fj = [(['txn-failcommit', '-site', s_], {}, f'c17fail-{s_}') for s_ in ('sm.rotate.marked', 'sm.rotate.oldsafe')]
+    fruns = run_jobs(ctx, fj)
+    judge(ctx, 'C17', fruns, fj, 'failcommit', rerun_plain(ctx))
     # (2) double finish / use after finish / lock released when Commit and Rollback return: free-running histories
     n = 16 if ctx.quick() else 150
     fr, fj = free_runs(ctx, n, [3, 4, 6], 6, tagp='c17free')
